@@ -16,7 +16,8 @@ def translate(mesh : Mesh, tr : Vec) -> Mesh:
         Mesh: the translated mesh
     """
     for i in mesh.id_vertices:
-        mesh.vertices[i] += tr
+        # rebind instead of '+=': the coordinate vector may be shared with another mesh or listed twice
+        mesh.vertices[i] = mesh.vertices[i] + tr
     return mesh
 
 def rotate(mesh : Mesh, rot : Rotation, orig : Vec = None) -> Mesh:
@@ -147,5 +148,8 @@ def flatten(mesh : Mesh, dim : int = None) -> Mesh:
             variances.append(np.var([p[i] for p in mesh.vertices]))
         dim = np.argmin(variances)
     for i in mesh.id_vertices:
-        mesh.vertices[i][dim] = 0.
+        # work on a copy: the coordinate vector may be shared with another mesh
+        Pi = Vec(mesh.vertices[i]).copy()
+        Pi[dim] = 0.
+        mesh.vertices[i] = Pi
     return mesh
